@@ -1233,11 +1233,13 @@ func defineStringExpression() {
 
 					values = append(values, value)
 
-					// parser already points to next token
-					curToken = p.current
-
-					// safely call next because this should always be a string
-					p.next()
+					// The lexer continues with a string after the closing parenthesis
+					// of an interpolation, unless the template is itself nested in
+					// an interpolation of another template, which is not supported
+					curToken, err = p.mustOne(lexer.TokenString)
+					if err != nil {
+						return nil, err
+					}
 
 					missingEnd = true
 				} else {
